@@ -40,6 +40,25 @@ def tarOutrankers : List String :=
 
 def startsWithS (b : Bytes) (s : String) : Bool := hasPrefix b (ofString s)
 
+/-- the OpenDocument and EPUB media types (the property's "OpenDocument or EPUB type") -/
+def odfTypes : List String :=
+  ["application/vnd.oasis.opendocument.text", "application/vnd.oasis.opendocument.text-template",
+   "application/vnd.oasis.opendocument.spreadsheet", "application/vnd.oasis.opendocument.spreadsheet-template",
+   "application/vnd.oasis.opendocument.presentation", "application/vnd.oasis.opendocument.presentation-template",
+   "application/vnd.oasis.opendocument.graphics", "application/vnd.oasis.opendocument.graphics-template",
+   "application/vnd.oasis.opendocument.formula", "application/vnd.oasis.opendocument.chart",
+   "application/epub+zip"]
+
+/-- C19 oracle, OpenDocument / EPUB clause: the first entry is the stored file `mimetype` whose
+    content `c` names one of those types ⇒ that type is reported, below application/zip -/
+def odfSpec (chain : List (Bytes × Bytes)) (names : List Bytes) (c : Bytes) : String :=
+  let leaf := (chain.head?.map (·.1)).getD []
+  if names.head? == some (ofString "mimetype") && odfTypes.any (fun t => ofString t == c) then
+    if leaf != c then "SPEC C19:opendocument-or-epub-type-not-reported"
+    else if !(chain.any (fun e => e.1 == ofString "application/zip")) then "SPEC C19:parent-not-zip"
+    else ""
+  else ""
+
 /-- C19 oracle: the implementation's verdict against the entry names read back with archive/zip -/
 def zipSpec (chain : List (Bytes × Bytes)) (names : List Bytes) : String :=
   let leaf := (chain.head?.map (·.1)).getD []
